@@ -379,8 +379,12 @@ class _DState:
             if k in names:
                 continue
             if pre.get(k) != post.get(k):
+                if self.files.get(k, ('',))[0] in ('txt', 'jsondict'):
+                    # a user file whose content write_txt / write_jsondict established was changed or removed by a
+                    # call that does not name it: its round trip is broken (and nothing had overwrite=True for it)
+                    raise Viol('datadir.roundtrip', 'file_changed_by_a_call_on_another_name', k)
                 if k in USERNAMES or k in self.files or k not in pre:
-                    # another *user* file changed: not described by the statement; its model follows the file
+                    # another user file of unjudged content, or a new entry: the model follows the file
                     self.follow(k)
                     self.probe('user_call_touched_another_user_file')
                     continue
